@@ -69,7 +69,7 @@ namespace rkcommon {
         const TransactionalValue<T> &fp)
     {
       std::lock_guard<std::mutex> lock{mutex};
-      queuedValue = fp.ref();
+      queuedValue = fp.currentValue;
       newValue    = true;
       return *this;
     }
